@@ -1,23 +1,24 @@
 import IncrVerif.Proofs.PerKeyH101
 import IncrVerif.Proofs.AssocMapLemmas
 /-!
-# Per-key operators, API actions part 11: `create (.perKey none fam (.outer k))` keeps the invariant between actions
+# Per-key operators, API actions part 11: `create (.perKey cut fam (.outer k))` (`cut` absent or `.eq`) keeps the invariant between actions
 (`action_create_perKey`), and `ActionSpecP` modulo the slots of the static actions (`actionSpecP_of_slots`)
 -/
 namespace IncrVerif.Proofs.PerKeyH
 open IncrVerif.Engine IncrVerif.Driver IncrVerif.Proofs IncrVerif.Proofs.Step IncrVerif.Proofs.Sched
 open IncrVerif.Proofs.ExpertH IncrVerif.Proofs.EffH IncrVerif.Proofs.DriverH
 
-/-- what `PInstrOK env s (.perKey none fam (.outer k))` says, `k` naming node `a0` -/
-structure PkIn (env : Env) (s : State) (fam a0 k : Nat) : Prop where
-  templ : TemplOK env (env.perKey fam)
+/-- what `PInstrOK env s (.perKey fam.cut fam.fam (.outer k))` says, `k` naming node `a0` -/
+structure PkIn (env : Env) (s : State) (fam : FamCut) (a0 k : Nat) : Prop where
+  cut : fam.cut = none ∨ fam.cut = some .eq
+  templ : TemplOK env (env.perKey fam.fam)
   top : s.top[k]? = some a0
   var : ∃ c vc m, (s.nodeD a0).kind = .var c ∧ s.vars[c]? = some vc ∧ vc.value = .map m ∧ IncrVerif.AMap.Sorted m ∧
     (∀ w, (s.nodeD a0).value = some w → ∃ m2, w = .map m2 ∧ IncrVerif.AMap.Sorted m2 ∧ keysSub m2 m)
-  outer : ∀ j : Nat, j ∈ templOuter (env.perKey fam) → ∃ o, s.top[j]? = some o
+  outer : ∀ j : Nat, j ∈ templOuter (env.perKey fam.fam) → ∃ o, s.top[j]? = some o
 
 section
-variable {env : Env} {s : State} {fam a0 k : Nat}
+variable {env : Env} {s : State} {fam : FamCut} {a0 k : Nat}
 
 theorem priv_new {x : Nat} (h : Priv env (pkNewOp fam s) x) : x = s.nodes.size + 2 := by
   rcases h with h | ⟨key, p, d, hm, -⟩
@@ -31,7 +32,7 @@ theorem opOK_pkc_new (F : PFrag env s) (I : PkIn env s fam a0 k)
     OpOK env (pkCreated fam a0 s) s.perkeys.size (pkNewOp fam s) := by
   have ha : a0 < s.nodes.size := htop k a0 I.top
   have hr1 : (pkNewOp fam s).result - 1 = s.nodes.size := rfl
-  refine ⟨rfl, fun c x hc hx hp => ?_, fun x hp => ?_, fun j x hj hp => ?_, I.templ, ?_, List.nodup_nil, List.nodup_nil,
+  refine ⟨I.cut, fun c x hc hx hp => ?_, fun x hp => ?_, fun j x hj hp => ?_, I.templ, ?_, List.nodup_nil, List.nodup_nil,
     IncrVerif.AMap.sorted_nil, fun key => rfl, fun hs => ?_⟩
   · have ex := priv_new hp
     by_cases hlt : c < s.nodes.size
@@ -217,17 +218,17 @@ end
 
 /-! ## the action -/
 
-/-- **`create (.perKey none fam x)` keeps the invariant between actions**, for a re-chosen rank -/
+/-- **`create (.perKey cut fam x)` (`cut` absent or `.eq`) keeps the invariant between actions**, for a re-chosen rank -/
 theorem action_create_perKey {env : Env} {rk : Nat → Nat} {s s' : State} {cut : Option CutoffK} {fam : Nat} {x : Opnd}
     {tk : Array Nat} {r : String × Array Nat} (Q : PQ env rk s) (hi : PInstrOK env s (.perKey cut fam x))
     (h : (stepAction env (.create (.perKey cut fam x)) tk).run.run s = (.ok r, s')) : ∃ rk', PQ env rk' s' := by
-  obtain ⟨rfl, htempl, ⟨k, o, c, vc, m, rfl, hk, hkind, hv, hval, hs, hw⟩, houter⟩ := hi
-  have I : PkIn env s fam o k := ⟨htempl, hk, ⟨c, vc, m, hkind, hv, hval, hs, hw⟩, houter⟩
+  obtain ⟨hcut, htempl, ⟨k, o, c, vc, m, rfl, hk, hkind, hv, hval, hs, hw⟩, houter⟩ := hi
+  have I : PkIn env s ⟨fam, cut⟩ o k := ⟨hcut, htempl, hk, ⟨c, vc, m, hkind, hv, hval, hs, hw⟩, houter⟩
   have hin := kids_lt_of_q Q.q
   have htop := top_lt_of_q Q.q
-  rw [perKey_create_inv Q.frag.scope hk h]
-  exact ⟨swapRk rk s.nodes.size, pfrag_pkc fam o Q.frag, qinv_pkc fam o Q.frag Q.pk.recs Q.q (htop k o hk),
-    ahhEmpty_pkc fam o Q.ahh, pkok_pkc Q.frag Q.pk I hin htop, slotInv_pkc fam o Q.frag Q.slots hin,
+  rw [perKey_create_inv (fam := ⟨fam, cut⟩) Q.frag.scope hk h]
+  exact ⟨swapRk rk s.nodes.size, pfrag_pkc ⟨fam, cut⟩ o Q.frag, qinv_pkc ⟨fam, cut⟩ o Q.frag Q.pk.recs Q.q (htop k o hk),
+    ahhEmpty_pkc ⟨fam, cut⟩ o Q.ahh, pkok_pkc Q.frag Q.pk I hin htop, slotInv_pkc ⟨fam, cut⟩ o Q.frag Q.slots hin,
     norem_pkc Q.pk Q.norem I htop⟩
 
 end IncrVerif.Proofs.PerKeyH
